@@ -93,6 +93,59 @@ def is_threaded(label: str) -> bool:
     return any(THREADED_NAME.search(part.split(":")[0]) for part in inner.split(";"))
 
 
+class SimFuture(Future):
+    """A Future whose blocking accessors hand the baton on instead of blocking for real."""
+
+    def _sim_wait(self):
+        sim = _ACTIVE
+        if sim is not None and not self.done() and sim.me() is not None:
+            sim.block_until(self.done, "future")
+
+    def result(self, timeout=None):
+        self._sim_wait()
+        return super().result(timeout)
+
+    def exception(self, timeout=None):
+        self._sim_wait()
+        return super().exception(timeout)
+
+
+def sim_as_completed(fs, timeout=None):
+    """Simulator-aware ``concurrent.futures.as_completed``: yields futures in simulated completion order."""
+    pending = list(fs)
+    sim = _ACTIVE
+    while pending:
+        done = [f for f in pending if f.done()]
+        if not done:
+            if sim is None or sim.me() is None:
+                import concurrent.futures as cf
+
+                yield from cf.as_completed(pending, timeout)
+                return
+            sim.block_until(lambda: any(f.done() for f in pending), "as_completed")
+            continue
+        # completion order as recorded by the scheduler (stable for simultaneous completions)
+        done.sort(key=lambda f: getattr(f, "_sim_done_seq", 0))
+        for f in done:
+            pending.remove(f)
+            yield f
+
+
+def sim_wait(fs, timeout=None, return_when="ALL_COMPLETED"):
+    import concurrent.futures as cf
+
+    fs = list(fs)
+    sim = _ACTIVE
+    if sim is not None and sim.me() is not None:
+        if return_when == cf.FIRST_COMPLETED:
+            sim.block_until(lambda: any(f.done() for f in fs), "wait")
+        elif return_when == cf.FIRST_EXCEPTION:
+            sim.block_until(lambda: all(f.done() for f in fs) or any(f.done() and f.exception() is not None for f in fs), "wait")
+        else:
+            sim.block_until(lambda: all(f.done() for f in fs), "wait")
+    return cf.wait(fs, timeout=0 if sim is not None else timeout, return_when=return_when)
+
+
 class SimThread:
     __slots__ = (
         "label",
@@ -414,7 +467,7 @@ class Sim:
 
     # ------------------------------------------------------------ thread body
     def spawn(self, label: str, fn: Callable, *args, **kwargs) -> Future:
-        fut: Future = Future()
+        fut: Future = SimFuture()
         th = self._new_thread(label)
 
         def body():
@@ -440,11 +493,13 @@ class Sim:
                 self.event("raise", (th.key, type(exc).__name__))
                 self.completion_order.append(th.key)
                 th.state = DONE
+                fut._sim_done_seq = self.seq
                 fut.set_exception(exc)
             else:
                 self.event("finish", th.key)
                 self.completion_order.append(th.key)
                 th.state = DONE
+                fut._sim_done_seq = self.seq
                 fut.set_result(res)
             try:
                 self._switch(th, "finish")
